@@ -202,3 +202,15 @@ func VerifStubDecoderDecode(d *_cbor.Decoder, dest any) error {
 	}
 	return errVerifStub
 }
+
+func verifOpaqueBytes(kind string, v any) []byte { return nil } // intercepted: opaque encoding enc(v)
+
+// contract for cbor.Encode: a value that implements Marshaler is encoded by its own
+// MarshalCBOR (what the library does for such values); anything else yields an opaque
+// byte string.
+func VerifStubEncode(data any) ([]byte, error) {
+	if m, ok := data.(_cbor.Marshaler); ok {
+		return m.MarshalCBOR()
+	}
+	return verifOpaqueBytes("enc", data), nil
+}
